@@ -91,7 +91,7 @@ def run(chk):
             # R3: objects appended to the free deque were removed from the used deque in the same hold; objects
             # returned by get() were appended to the used deque
             for (field, kind, node, st) in dom.accesses:
-                if kind == "write" and isinstance(node, ast.Call) and isinstance(node.func, ast.Attribute) and node.func.attr in ("append", "appendleft") and node.args and isinstance(node.args[0], ast.Name):
+                if kind == "write" and isinstance(node, ast.Call) and isinstance(node.func, ast.Attribute) and node.func.attr in ("append", "appendleft", "add") and node.args and isinstance(node.args[0], ast.Name):
                     nm = node.args[0].id
                     v = st.get(nm)
                     if isinstance(v, poolpaths.Obj) and v.origin == "param":
